@@ -2,10 +2,19 @@ package sched
 
 import (
 	"context"
+	"fmt"
+	"sort"
+	"sync"
+	"time"
 
+	"github.com/samber/lo"
+	"k8s.io/apimachinery/pkg/api/equality"
 	metav1 "k8s.io/apimachinery/pkg/apis/meta/v1"
 
 	v1 "sigs.k8s.io/karpenter/pkg/apis/v1"
+	"sigs.k8s.io/karpenter/pkg/controllers/dynamicresources/deviceallocation"
+	staticprovisioning "sigs.k8s.io/karpenter/pkg/controllers/static/provisioning"
+	"sigs.k8s.io/karpenter/pkg/state/virtualpods"
 
 	"verif/harness/trace"
 	"verif/harness/world"
@@ -34,6 +43,9 @@ func applyPoolExt(np *v1.NodePool, p Pool) {
 	if p.Deleting {
 		np.Finalizers = append(np.Finalizers, holdFinalizer)
 	}
+	if p.Replicas > 0 {
+		np.Spec.Replicas = lo.ToPtr(int64(p.Replicas))
+	}
 }
 
 // deletePoolIfDeleting gives the stored pool a deletionTimestamp (the finalizer keeps it listed).
@@ -55,4 +67,148 @@ func (sim *Sim) createdExt(ev trace.M, nc *v1.NodeClaim) trace.M {
 		ev["ncKey"], ev["ncVal"] = v1.NodeClassLabelKey(ref.GroupKind()), ref.Name
 	}
 	return ev
+}
+
+// ---------------------------------------------------------------- Solve deadline after k placements (options.deadlineAfter)
+
+// expiringCtx is a context that expires (DeadlineExceeded) when the driver says so.  It implements the AfterFunc method the
+// context package looks for, so the child context.WithTimeout Provisioner.Schedule derives from it is cancelled SYNCHRONOUSLY
+// inside expire() - the very next ctx.Err() poll of Solve sees the deadline.
+type expiringCtx struct {
+	context.Context
+	mu   sync.Mutex
+	done chan struct{}
+	err  error
+	fns  map[int]func()
+	n    int
+}
+
+func (c *expiringCtx) Deadline() (time.Time, bool) { return time.Time{}, false }
+func (c *expiringCtx) Done() <-chan struct{}       { return c.done }
+func (c *expiringCtx) Err() error {
+	c.mu.Lock()
+	defer c.mu.Unlock()
+	return c.err
+}
+func (c *expiringCtx) AfterFunc(f func()) func() bool {
+	c.mu.Lock()
+	defer c.mu.Unlock()
+	if c.err != nil {
+		go f()
+		return func() bool { return false }
+	}
+	c.n++
+	id := c.n
+	c.fns[id] = f
+	return func() bool {
+		c.mu.Lock()
+		defer c.mu.Unlock()
+		_, ok := c.fns[id]
+		delete(c.fns, id)
+		return ok
+	}
+}
+func (c *expiringCtx) expire() {
+	c.mu.Lock()
+	if c.err != nil {
+		c.mu.Unlock()
+		return
+	}
+	c.err = context.DeadlineExceeded
+	close(c.done)
+	fns := c.fns
+	c.fns = map[int]func(){}
+	c.mu.Unlock()
+	for _, f := range fns {
+		f()
+	}
+}
+
+// one scenario runs at a time in a driver process
+var deadline struct {
+	ctx    *expiringCtx
+	after  int
+	placed int
+}
+
+// scheduleCtx is the context Provisioner.Schedule runs under.
+func (sim *Sim) scheduleCtx() context.Context {
+	deadline.ctx, deadline.after, deadline.placed = nil, sim.S.Options.DeadlineAfter, 0
+	if deadline.after <= 0 {
+		return sim.Ctx
+	}
+	deadline.ctx = &expiringCtx{Context: sim.Ctx, done: make(chan struct{}), fns: map[int]func(){}}
+	return deadline.ctx
+}
+
+// afterSched is called by the H1 hook handler after every Sched event: the k-th placement expires the Solve context.
+func (sim *Sim) afterSched(kind string) {
+	if deadline.ctx == nil || (kind != "commit" && kind != "open") {
+		return
+	}
+	deadline.placed++
+	if deadline.placed == deadline.after {
+		deadline.ctx.expire()
+	}
+}
+
+// ---------------------------------------------------------------- static NodePools (pool.replicas)
+
+// staticStep runs the REAL static provisioning controller once on every static pool of the scenario, the way
+// reconcile.AsReconciler does (a fresh copy of the stored object), and records every NodeClaim it stored (StaticCreated, same
+// fields as Created, idx = position among the pool's new NodeClaims) plus one StaticPool event: objectChanged = the NodePool object
+// handed to Reconcile differs afterwards (spec / labels / annotations), storedChanged = the pool stored in the API differs.
+func (sim *Sim) staticStep(emit func(trace.M)) {
+	for _, p := range sim.S.Pools {
+		if p.Replicas <= 0 {
+			continue
+		}
+		np := &v1.NodePool{ObjectMeta: metav1.ObjectMeta{Name: p.Name}}
+		if !sim.W.Get(np) {
+			continue
+		}
+		before := np.DeepCopy()
+		known := map[string]bool{}
+		ncs := &v1.NodeClaimList{}
+		_ = sim.W.Client.List(sim.Ctx, ncs)
+		for _, nc := range ncs.Items {
+			known[nc.Name] = true
+		}
+		ctrl := staticprovisioning.NewController(sim.W.Client, sim.Cluster, sim.W.Rec, sim.W.Prov, sim.Prov, sim.W.Clock,
+			deviceallocation.NewController(sim.W.Client), virtualpods.NewVirtualPodCache(sim.W.Client))
+		errS, pan := "-", false
+		func() {
+			defer func() {
+				if r := recover(); r != nil {
+					pan = true
+					emit(trace.M{"e": "Panic", "where": "StaticReconcile", "msg": trunc(fmt.Sprint(r), 200)})
+				}
+			}()
+			if _, err := ctrl.Reconcile(sim.Ctx, np); err != nil {
+				errS = trunc(err.Error(), 200)
+			}
+		}()
+		_ = sim.W.Client.List(sim.Ctx, ncs)
+		fresh := []v1.NodeClaim{}
+		for _, nc := range ncs.Items {
+			if !known[nc.Name] && nc.Labels[v1.NodePoolLabelKey] == p.Name {
+				fresh = append(fresh, nc)
+			}
+		}
+		sort.Slice(fresh, func(i, j int) bool { return fresh[i].Name < fresh[j].Name })
+		for i := range fresh {
+			ev := sim.CreatedEvent(i, &fresh[i])
+			ev["e"] = "StaticCreated"
+			emit(ev)
+		}
+		stored := &v1.NodePool{ObjectMeta: metav1.ObjectMeta{Name: p.Name}}
+		storedChanged := !sim.W.Get(stored) || !samePool(before, stored)
+		emit(trace.M{"e": "StaticPool", "pool": p.Name, "replicas": p.Replicas, "created": len(fresh), "err": errS, "panic": pan,
+			"objectChanged": !samePool(before, np), "storedChanged": storedChanged})
+	}
+}
+
+func samePool(a, b *v1.NodePool) bool {
+	return equality.Semantic.DeepEqual(a.Spec, b.Spec) && equality.Semantic.DeepEqual(a.Labels, b.Labels) &&
+		equality.Semantic.DeepEqual(a.Annotations, b.Annotations)
 }
